@@ -28,7 +28,7 @@ use std::time::{Duration, Instant};
 
 const LEASE_KEY: &str = "poa:leader:lock";
 /// generous: the sandbox can be heavily loaded; a request that is not held back must never time out
-const NODE_TIMEOUT_MS: u64 = 500;
+const NODE_TIMEOUT_MS: u64 = 1500;
 
 fn make_block(height: u32, variant: u64) -> SealedBlock {
     let mut block = Block::default();
@@ -61,9 +61,10 @@ struct Sys {
     ttl: u64,
     maxlen: u32,
     attempts: u32,
+    unstable: std::sync::atomic::AtomicBool,
 }
 
-fn err_class(e: &anyhow::Error) -> u64 {
+fn err_class(e: &impl std::fmt::Display) -> u64 {
     let m = e.to_string();
     if m.contains("Cannot reconcile: only") {
         1
@@ -120,7 +121,7 @@ impl Sys {
 
     /// every publish call sends one write to every node: wait for the stragglers of the last call
     fn settle(&self) {
-        let deadline = Instant::now() + Duration::from_secs(5);
+        let deadline = Instant::now() + Duration::from_secs(8);
         loop {
             {
                 let seen = self.servers.shared.writes_seen.lock().unwrap();
@@ -130,6 +131,8 @@ impl Sys {
                 }
             }
             if Instant::now() > deadline {
+                // a straggler never reached its node (connect timeout under machine load)
+                self.unstable.store(true, std::sync::atomic::Ordering::Relaxed);
                 return;
             }
             std::thread::sleep(Duration::from_millis(1));
@@ -220,6 +223,16 @@ impl Sys {
 }
 
 pub fn run_sys(cfg: &[T], steps: &[T]) -> T {
+    // a run disturbed by the machine (a write thread that could not even connect) is repeated
+    for _ in 0..3 {
+        if let Some(t) = run_sys_once(cfg, steps) {
+            return t;
+        }
+    }
+    run_sys_once(cfg, steps).unwrap_or_else(|| T::L(vec![T::I(-775)]))
+}
+
+fn run_sys_once(cfg: &[T], steps: &[T]) -> Option<T> {
     let n = cfg[0].as_usize();
     let nreps = cfg[1].as_usize();
     let rt = tokio::runtime::Builder::new_multi_thread().worker_threads(2).enable_all().build().expect("rt");
@@ -233,6 +246,7 @@ pub fn run_sys(cfg: &[T], steps: &[T]) -> T {
         ttl: cfg[3].as_u64(),
         maxlen: cfg[4].as_u32(),
         attempts: cfg[5].as_u32(),
+        unstable: std::sync::atomic::AtomicBool::new(false),
     };
     for _ in 0..nreps {
         let (a, k) = sys.new_adapter();
@@ -324,7 +338,10 @@ pub fn run_sys(cfg: &[T], steps: &[T]) -> T {
     }
     sys.servers.stop();
     let _ = sys.n;
-    T::L(vec![T::L(out_steps), T::L(vec![chains, streams])])
+    if sys.unstable.load(std::sync::atomic::Ordering::Relaxed) {
+        return None;
+    }
+    Some(T::L(vec![T::L(out_steps), T::L(vec![chains, streams])]))
 }
 
 impl Sys {
